@@ -58,7 +58,9 @@ def collect(pid, tier, replay_path, prefixes, wd, rng, extra_stmts=None, per_rec
         r = byid[v["id"]]
         keys = set(k for k in v["keys"] if any(k.startswith(p) for p in prefixes))
         if per_record:
-            keys |= set(per_record(r, v))
+            extra = per_record(r, v)
+            keys -= set(k[1:] for k in extra if k.startswith("-"))
+            keys |= set(k for k in extra if not k.startswith("-"))
         for k in sorted(keys):
             fails.append((k, {"stmt": r["stmt"], "obs": slim(r)}))
         nontriv += 1 if v["nvals"] >= 2 else 0
